@@ -17,6 +17,7 @@ func verifBlockForever()
 func verifQuiesce()
 func verifLiveThreads() int
 func verifAssertNoLiveThreads(label string)
+func verifAssertNoLiveThreadsExcept(label string, allowedSite string)
 func verifAdvanceTime()
 func verifSymbolicClock()
 func verifHelperExit(code int)
